@@ -604,6 +604,26 @@ def run(ctx):
             if not bad:
                 ctx.ok(R_miss, {"fn": f.path, "table": tbl[0].split("::")[-1], "op": c.split("::")[-1], "line": t["ln"]})
 
+    # explicit panics across the FFI boundary
+    R_unw = ctx.rule("C19.no-unwrap-across-ffi", "no unwrap/expect in the FFI crate except on Mutex::lock (a panic inside extern \"C\" aborts the caller's process)", floor=25)
+    for f in st.fn_list:
+        if "::tests::" in f.path:
+            continue
+        n_bad = 0
+        der = None
+        for bb, t in mirg.iter_calls(f):
+            c = ncallee(t) or ""
+            if re.search(r"(Option|Result)::(unwrap|expect)$", c) and not t.get("x"):
+                der = der or Derive(f)
+                roots = der.roots(t["a"][0])
+                if any(k == "call" and re.search(r"(Mutex::lock|RwLock::(read|write)|ThreadPoolBuilder::build)$", w) for k, w, d in roots):
+                    continue
+                n_bad += 1
+                ctx.bad(R_unw, "%s|%s" % (f.path, c.split("::")[-1]), "%s:%d" % (f.file, t["ln"]), "%s on a value not produced by lock()" % c.split("::")[-1],
+                        "a caller-controlled value (stale handle, bad string, missing entry) panics inside an extern \"C\" function: abort instead of an error code")
+        if not n_bad and f.kind != "Closure":
+            ctx.ok(R_unw, {"fn": f.path})
+
     # header prototypes
     hdr = os.path.join(facts.REPO, "ffi", "storm-ffi", "include", "StormLib.h")
     protos = parse_header(hdr)
